@@ -1,3 +1,5 @@
 import PfVerif.Audit.Tool
 import PfVerif.Props.C09
+import PfVerif.Lemmas.C09Modules
 #audit_module PfVerif.Props.C09
+#audit_module_ns PfVerif.Lemmas.C09Modules PfVerif.C09Modules
